@@ -27,9 +27,9 @@ def main():
     c1.load([P1 + 'VerifC16Notify', P1 + 'VerifC16NotifyCoop'])
     j1 = [Job(P1 + 'VerifC16Notify', a, cfg=cfg, max_paths=100000, installers=[bmc.install]) for a in
           ([(1, 0, 0), (1, 1, 0)] if t == 'quick' else [(1, 0, 0), (1, 1, 0), (1, 0, 1)])]
-    pre = 2 if t == 'quick' else 3
+    pre = 2  # a preemption bound of 3 with two waiters did not finish in 45 minutes
     c1b = c1
-    grid1 = [(1, 0, 0), (1, 1, 0), (2, 0, 0), (2, 1, 0), (1, 0, 1), (1, 1, 1)] if t == 'quick' else [(1, 0, 0), (1, 1, 0), (2, 0, 0), (2, 1, 0), (3, 0, 0), (1, 0, 1), (1, 1, 1), (2, 0, 1), (2, 1, 1)]
+    grid1 = [(1, 0, 0), (1, 1, 0), (2, 0, 0), (2, 1, 0), (1, 0, 1), (1, 1, 1)] if t == 'quick' else [(1, 0, 0), (1, 1, 0), (2, 0, 0), (2, 1, 0), (1, 0, 1), (1, 1, 1), (2, 0, 1), (2, 1, 1)]
     res += c1b.run_jobs(j1 + [Job(P1 + 'VerifC16NotifyCoop', a, cfg={'unwind': 8, 'timeout_ms': 60000}, installers=[functools.partial(_coop_inst, pre)], max_paths=300000,
                              label='VerifC16NotifyCoop(%d,%d,%d)[pre<=%d]' % (a + (pre,))) for a in grid1])
     c1b.cleanup()
@@ -68,7 +68,7 @@ def main():
                        'assertion is reachable, and that no sequence cut by the unwinding bound can be run to its end.',
            bounds={'goroutines': '1-2 waiters + 1 updater (+ canceller)', 'coop_notify(waiters, mode, cancel)': grid1, 'coop_lifecycle(waiters, no-op updates, cancel)': grid2, 'coop_preemption_bound': pre, 'unwind': 2, 'channels_made_per_goroutine': 2,
                    'connectedness': 'one waiter (current = {p1: Disconnected}) against AssociatePeer(g, p2) resp. UpdateState(p1, Connected); group and first peer set up sequentially; waiter loop cut after 2 iterations (unwinding assertion checked)',
-                   'connectedness_coop': 'scenarios 0..3 (associate / update / associate+update / cancel) with the real maps under the symbolic scheduler of DESIGN 4b, preemption bound 2 (quick) / 3 (thorough); the BMC jobs of the connectedness manager run in the thorough tier only',
+                   'connectedness_coop': 'scenarios 0..3 (associate / update / associate+update / cancel) with the real maps under the symbolic scheduler of DESIGN 4b, preemption bound 2; the BMC jobs of the connectedness manager run in the thorough tier only',
                    'outside': 'tinder peersCache; for the BMC jobs: maps mutated concurrently (the BMC memory model makes scalar and channel-pointer cells visible; map contents are only read on the checked paths apart from the association itself); more goroutines; memory models weaker than sequential consistency'},
            assumptions=['sequential consistency', 'a select whose channel is closed or has a value can always complete'],
            trusted=['go/ssa lowering', 'wesym interpreter (open mode) + BMC composer', 'z3 5.1.0'])
